@@ -53,9 +53,19 @@ struct Kern {
                         return nullptr;
                 if (zero)
                         memset(s->data, 0, len);
-                else
+                else {
                         for (size_t i = 0; i < len; i++)
                                 s->data[i] = (uint8_t) r.u64();
+                        if (r.chance(1, 3)) { // record-structured data: 16-byte lanes all zero / all non-zero / all 0xFF / random
+                                uint64_t lanes = r.u64();
+                                for (size_t i = 0; i < len; i++) {
+                                        if ((i & 511) == 0)
+                                                lanes = r.u64();
+                                        int lane = (int) ((lanes >> (2 * ((i >> 4) & 31))) & 3);
+                                        s->data[i] = lane == 0 ? 0 : lane == 1 ? (uint8_t) (s->data[i] | 1) : lane == 2 ? 0xff : s->data[i];
+                                }
+                        }
+                }
                 return s;
         }
         bool fault(const char *what)
@@ -248,6 +258,19 @@ struct Kern {
                                 uint8_t x = (uint8_t) (1 + r.below(255));
                                 v[vi]->data[at] ^= x;
                                 v2[vi]->data[at] ^= x;
+                                // now and then a second (third) damaged byte at a vector-lane stride from the first, with the same or another
+                                // difference, in the same or another block: damage that can cancel inside a kernel's syndrome merging
+                                if (sub & 32)
+                                        for (int extra = 1 + (int) r.below(2); extra > 0; extra--) {
+                                                static const size_t strides[] = { 16, 32, 48, 64, 1, 15, 17 };
+                                                size_t at2 = at + r.pick(strides) * (1 + r.below(2));
+                                                int vj = r.chance(1, 2) ? vi : (int) (vects - 1 - r.below(std::min(vects, 3)));
+                                                uint8_t y = r.chance(2, 3) ? x : (uint8_t) (1 + r.below(255));
+                                                if (at2 < l) {
+                                                        v[vj]->data[at2] ^= y;
+                                                        v2[vj]->data[at2] ^= y;
+                                                }
+                                        }
                         }
                         const char *fc = pq ? "pq_check" : "xor_check";
                         if (GUARDED(gc, c1 = pq ? pq_check(vects, (int) l, a) : xor_check(vects, (int) l, a)))
@@ -400,10 +423,16 @@ struct Kern {
                         if (sub & 1)
                                 for (size_t i = 0; i < l; i++)
                                         s->data[i] = (uint8_t) ('a' + s->data[i] % 3);
+                        // the counters accumulate (the caller zeroes them); hash_table is documented as temporary space: its prior contents
+                        // are garbage here and must not influence the counts
                         memset(hs->data, 0, hs->len);
+                        {
+                                struct isal_huff_histogram *hg = (struct isal_huff_histogram *) hs->data;
+                                fill_garbage((uint8_t *) hg->hash_table, sizeof hg->hash_table, fill + 77 + opn);
+                        }
                         if (GUARDED(gc, isal_update_histogram(s->data, (int) l, (struct isal_huff_histogram *) hs->data)))
                                 return fault("isal_update_histogram");
-                        h.rec("isal_update_histogram", { (int64_t) l, g_kern_portable ? 0 : (int64_t) hash_bytes(hs->data, hs->len) });
+                        h.rec("isal_update_histogram", { (int64_t) l, g_kern_portable ? 0 : (int64_t) hash_bytes(hs->data, offsetof(struct isal_huff_histogram, hash_table)) });
                         h.sigmix(0x7157 ^ (l % 257) << 8);
                         if (!g_arena.canary_ok(hs) || !g_arena.canary_ok(s)) {
                                 rr.fail("C05.canary", "isal_update_histogram wrote outside the histogram");
